@@ -34,7 +34,7 @@ class Prop(BaseProp):
             "window, and real ISI/SPIKE/Sync profiles of three trains as operands of the three add routines. The .pyx "
             "side runs through the emulator whose memoryview proxy bounds-checks every index. Shapes exact, marks and "
             "multiplicities exact, reals 1e-12. distinct = interleaving words incl. keyword regime")
-    budget = {"quick": 1600, "thorough": 50000}
+    budget = {"quick": 3200, "thorough": 1000000}
     must_see = ["pair:" + p for p in PAIRS] + ["empty_train", "one_spike_train_on_t_end", "shared_interior_spike", "max_tau_positive", "RI_true"]
     arm_files = []
     assumptions = ["the .pyx side is a mechanical transliteration executed under CPython: C integer width/overflow, "
